@@ -80,7 +80,12 @@ KINDS = {
     "nested": ("exists(add(#a, 1))", "a"),
     "righthand": ("yes() -> add(#a, 1)", "a"),
     "assign": ("@v = add(#a, 1)", "a"),
+    # the erroring function guards a fail(): an error is not a match of the left side, so the right side must not run and the
+    # verdict is the policy's doing alone
+    "guardfail": ("above.nocontrib(add(#a, 1), 100) -> fail()", "a"),
+    "guardfail2": ("equals.nocontrib(mod(#n, #d), 100) -> fail_and_stop()", "d"),
 }
+GUARD_KINDS = ["guardfail", "guardfail2"]
 
 
 def case_run(case):
